@@ -410,7 +410,7 @@ pub fn run(tier: &str, seed: u64) -> i32 {
         either top-level operand, doubling or padding spaces and adding outer parentheses leave all verdicts \
         unchanged; (4) renaming A,B,C to keyword-prefixed words (android/order/nothing, allow/offline/integer, \
         stringent/notes/flt1) leaves them unchanged. Plus every three-operand chain (or / and-or mixes, negated) over \
-        10 atoms incl. field-to-field cast comparisons; three settings of the cast fields. Every document is also matched against the rule optimised with the default switches and with one further switch set; a verdict that differs from the rule as loaded must be explained by the known findings K1 / K2 (relaxed reference for that switch set). Non-trivial: >= 2 different operator kinds; distinct by token \
+        10 atoms incl. field-to-field cast comparisons; three settings of the cast fields. Long and deep conditions: chains of 8-64 operands (thorough 70) of one operator or alternating, with a negation / double negation / parenthesised negation at the first, middle or last place, flat, and up to 16 operands also nested to the right; towers of up to 14 parentheses and `not`s (shake takes time exponential in the nesting depth, so deeper ones are not evaluated). Every document is also matched against the rule optimised with the default switches and with one further switch set; a verdict that differs from the rule as loaded must be explained by the known findings K1 / K2 (relaxed reference for that switch set). Non-trivial: >= 2 different operator kinds; distinct by token \
         shape."
         .into();
     report.assumptions = vec!["associativity of and/or is not observable through verdicts in this logic, so it is pinned structurally on the unoptimised expression".into()];
@@ -471,6 +471,63 @@ pub fn run(tier: &str, seed: u64) -> i32 {
     });
     for s in subs {
         report.merge(s);
+    }
+    // long and deep conditions: chains of 8-64 operands (one operator, or alternating), with a
+    // negation, a double negation or a parenthesised negation at the first / middle / last place;
+    // the same chains nested to the right with parentheses; towers of parentheses and of `not`
+    {
+        let mut long: Vec<String> = vec![];
+        let lens: &[usize] = if tier == "thorough" { &[8, 15, 16, 17, 30, 31, 32, 33, 34, 35, 48, 63, 64, 65, 70] } else { &[8, 16, 31, 32, 33, 34, 48, 64] };
+        for &n in lens {
+            for special in ["not not A", "not A", "not (not A)", "not not not A", "(A)", "not (A and B)", "not not (A or C)"] {
+                for pos in [0, n / 2, n - 1] {
+                    for ops in [["or", "or"], ["and", "and"], ["or", "and"], ["and", "or"]] {
+                        let operands: Vec<String> =
+                            (0..n).map(|i| if i == pos { special.to_string() } else { ["B", "C", "B", "A"][i % 4].to_string() }).collect();
+                        // left-leaning as the grammar has it
+                        let mut flat = operands[0].clone();
+                        for (i, o) in operands.iter().enumerate().skip(1) {
+                            flat.push_str(&format!(" {} {o}", ops[i % 2]));
+                        }
+                        long.push(flat);
+                        if ops[0] == ops[1] && pos != n / 2 && n <= 16 {
+                            // nested to the right with explicit parentheses (short chains only: the optimiser's
+                            // shake pass takes time exponential in the nesting depth)
+                            let mut right = operands[n - 1].clone();
+                            for o in operands.iter().rev().skip(1) {
+                                right = format!("{o} {} ({right})", ops[0]);
+                            }
+                            long.push(right);
+                        }
+                    }
+                }
+            }
+        }
+        for depth in [3usize, 5, 8, 11, 14] {
+            long.push(format!("{}A{} and B", "(".repeat(depth), ")".repeat(depth)));
+            long.push(format!("{}A", "not ".repeat(depth)));
+            long.push(format!("{}A or C", "not ".repeat(depth + 1)));
+            long.push(format!("B or {}not A or C{}", "(".repeat(depth), ")".repeat(depth)));
+            long.push(format!("{}(A and not C)", "not (".repeat(depth)) + &")".repeat(depth));
+        }
+        report.label_n("long_and_deep_conditions", long.len() as u64);
+        let subs: Vec<Report> = par_run(|w, n| {
+            let mut sub = report.sub();
+            for (i, c) in long.iter().enumerate() {
+                if i % n != w {
+                    continue;
+                }
+                let mut case = Case::new("c05.condition");
+                case.texts = vec![c.clone()];
+                let out = judge(&case);
+                sub.label("long_or_deep_condition");
+                sub.record(&case, out);
+            }
+            sub
+        });
+        for s in subs {
+            report.merge(s);
+        }
     }
     // whole rules with case twins and with several predicates on one field
     {
